@@ -91,7 +91,7 @@ def _shared_loc(loc, prog):
     return False
 
 
-def frame_obligations(name, entries, prune=None, memo_ok=MEMO_OK, functions=None):
+def frame_obligations(name, entries, prune=None, memo_ok=MEMO_OK, functions=None, interpreter_globals=False):
     """No reachable function writes shared state (other than the listed write-once memo tables)."""
     prog = program()
     reach = prog.reachable(entries, prune)
@@ -166,6 +166,22 @@ def frame_obligations(name, entries, prune=None, memo_ok=MEMO_OK, functions=None
                   'no reachable function reads the clock, randomness or the environment' if not env else
                   'ambient reads: %r' % env[:5], dict(sites=env[:10]) if env else None, functions=fl,
                   replayed=False if env else None))
+    # no change of interpreter-wide state of the standard library (not thread-safe, visible to every other caller)
+    GLOBAL_MUTATORS = ('ext:warnings.filterwarnings', 'ext:warnings.simplefilter', 'ext:warnings.catch_warnings',
+                       'ext:warnings.resetwarnings', 'ext:os.chdir', 'ext:os.putenv', 'ext:os.umask', 'ext:sys.setrecursionlimit',
+                       'ext:sys.setswitchinterval', 'ext:locale.setlocale', 'ext:gc.disable', 'ext:gc.enable', 'ext:gc.set_threshold',
+                       'ext:random.seed', 'ext:signal.signal', 'ext:signal.setitimer', 'ext:threading.setprofile', 'ext:sys.settrace')
+    if not interpreter_globals:
+        return obs
+    glob = sorted((q, c) for q in reach for c in prog.fns[q].calls if c.startswith(GLOBAL_MUTATORS))
+    for q, c in glob:
+        obs.append(Ob('eff:%s:no-interpreter-global-mutation' % name, 'D', 'effects', REFUTED, 0,
+                      '%s calls %s, which changes interpreter-wide state' % (q, c[4:]), dict(function=q, call=c[4:]),
+                      functions=[q], signature='%s -> %s' % (q, c[4:]), replayed=False))
+    if not glob:
+        obs.append(Ob('eff:%s:no-interpreter-global-mutation' % name, 'D', 'effects', DISCHARGED, 0,
+                      'no reachable function changes interpreter-wide state of the standard library (warnings filters, working '
+                      'directory, recursion limit, locale, garbage collector, random seed, signal handlers)', functions=fl))
     return obs
 
 
